@@ -43,84 +43,101 @@ Proof.
 Qed.
 
 Definition good_obs (o : obs) : Prop :=
-  match o with OOutside _ b => b = None | OBlocked _ => False | OBuilt _ _ => True end.
+  match o with OOutside _ b => b = None | OBlocked _ => False | OBuilt _ _ => True | OReadDesc _ _ => True end.
 
 Lemma step_released : forall c e, cur c = None -> locked c = false -> no_base e = true ->
-  cur (fst (step c e)) = None /\ locked (fst (step c e)) = false /\ good_obs (snd (step c e)).
+  cur (fst (step true c e)) = None /\ locked (fst (step true c e)) = false /\ good_obs (snd (step true c e)).
 Proof.
-  intros c e Hc Hl Hb; destruct e as [id toks o | tok]; simpl.
+  intros c e Hc Hl Hb; destruct e as [id toks o | id toks o | tok]; simpl.
   - rewrite Hl; simpl. destruct o; simpl in *; try discriminate; auto.
+  - rewrite Hl; simpl. auto.
   - unfold add_to_synth; rewrite Hc; simpl; auto.
 Qed.
 
 Lemma run_released : forall evs c, cur c = None -> locked c = false -> forallb no_base evs = true ->
-  cur (fst (run c evs)) = None /\ locked (fst (run c evs)) = false /\ Forall good_obs (snd (run c evs)).
+  cur (fst (run true c evs)) = None /\ locked (fst (run true c evs)) = false /\ Forall good_obs (snd (run true c evs)).
 Proof.
   induction evs as [|e t IH]; intros c Hc Hl Hb; simpl.
   - auto.
   - simpl in Hb; apply andb_true_iff in Hb; destruct Hb as [Hb1 Hb2].
     destruct (step_released c e Hc Hl Hb1) as (H1 & H2 & H3).
-    destruct (step c e) as [c1 o] eqn:Es; simpl in *.
+    destruct (step true c e) as [c1 o] eqn:Es; simpl in *.
     destruct (IH c1 H1 H2 Hb2) as (H4 & H5 & H6).
-    destruct (run c1 t) as [c2 os]; simpl in *; auto.
+    destruct (run true c1 t) as [c2 os]; simpl in *; auto.
 Qed.
 
 (* effect of one event on the definitions, from a released context *)
 Lemma step_defs : forall c e, cur c = None -> locked c = false ->
-  match e with
-  | EBuild id toks _ =>
-      content id (defs (fst (step c e))) = content id (defs c) ++ toks /\
-      (forall d, d <> id -> content d (defs (fst (step c e))) = content d (defs c))
-  | EOutside _ => forall d, content d (defs (fst (step c e))) = content d (defs c)
+  match ev_toks e with
+  | Some (id, toks) =>
+      content id (defs (fst (step true c e))) = content id (defs c) ++ toks /\
+      (forall d, d <> id -> content d (defs (fst (step true c e))) = content d (defs c))
+  | None => forall d, content d (defs (fst (step true c e))) = content d (defs c)
   end.
 Proof.
-  intros c e Hc Hl; destruct e as [id toks o | tok]; simpl.
+  intros c e Hc Hl; destruct e as [id toks o | id toks o | tok]; simpl.
+  - rewrite Hl; simpl.
+    apply (fold_add_content toks (mkCtx (Some id) true (defs c)) id); reflexivity.
   - rewrite Hl; simpl.
     apply (fold_add_content toks (mkCtx (Some id) true (defs c)) id); reflexivity.
   - unfold add_to_synth; rewrite Hc; auto.
 Qed.
 
+Lemma ev_toks_ids : forall e id toks, ev_toks e = Some (id, toks) -> build_ids [e] = [id].
+Proof. intros [i l o|i l o|k] id toks H; simpl in *; try discriminate; injection H as <- <-; auto. Qed.
+Lemma build_ids_cons : forall e t, build_ids (e :: t) = build_ids [e] ++ build_ids t.
+Proof. intros. unfold build_ids. simpl. rewrite app_nil_r. auto. Qed.
+Lemma ev_toks_none_ids : forall e, ev_toks e = None -> build_ids [e] = [].
+Proof. intros [i l o|i l o|k] H; simpl in *; try discriminate; auto. Qed.
+
 Lemma run_defs_untouched : forall evs c d, cur c = None -> locked c = false -> forallb no_base evs = true ->
-  ~ In d (build_ids evs) -> content d (defs (fst (run c evs))) = content d (defs c).
+  ~ In d (build_ids evs) -> content d (defs (fst (run true c evs))) = content d (defs c).
 Proof.
-  induction evs as [|e t IH]; intros c d Hc Hl Hb Hn; simpl; auto.
+  induction evs as [|e t IH]; intros c d Hc Hl Hb Hn; cbn [run]; auto.
   simpl in Hb; apply andb_true_iff in Hb; destruct Hb as [Hb1 Hb2].
   destruct (step_released c e Hc Hl Hb1) as (H1 & H2 & _).
   pose proof (step_defs c e Hc Hl) as Hd.
-  destruct (step c e) as [c1 o] eqn:Es; simpl in *.
+  rewrite build_ids_cons in Hn.
+  destruct (step true c e) as [c1 o] eqn:Es; cbn [fst snd] in *.
   specialize (IH c1 d H1 H2 Hb2).
-  destruct (run c1 t) as [c2 os] eqn:Er; simpl in *.
+  destruct (run true c1 t) as [c2 os] eqn:Er; cbn [fst snd] in *.
   rewrite IH.
-  - destruct e as [id toks oc | tok]; simpl in *.
-    + destruct Hd as [_ Hd]; apply Hd. intro; subst; apply Hn; left; reflexivity.
+  - destruct (ev_toks e) as [[id toks]|] eqn:Et.
+    + destruct Hd as [_ Hd]; apply Hd. intro; subst. apply Hn. apply in_or_app. left.
+      rewrite (ev_toks_ids e id toks Et). left; auto.
     + apply Hd.
-  - intro Hin; apply Hn. destruct e; simpl; auto.
+  - intro Hin; apply Hn. apply in_or_app; auto.
 Qed.
+
+Lemma NoDup_app_r : forall (l1 l2 : list nat), NoDup (l1 ++ l2) -> NoDup l2.
+Proof. induction l1 as [|x t IH]; simpl; auto. intros l2 H. inversion H; auto. Qed.
 
 Lemma run_no_residue : forall evs c, cur c = None -> locked c = false -> forallb no_base evs = true ->
   NoDup (build_ids evs) ->
-  forall id toks o, In (EBuild id toks o) evs ->
-  content id (defs (fst (run c evs))) = content id (defs c) ++ toks.
+  forall e id toks, In e evs -> ev_toks e = Some (id, toks) ->
+  content id (defs (fst (run true c evs))) = content id (defs c) ++ toks.
 Proof.
-  induction evs as [|e t IH]; intros c Hc Hl Hb Hnd id toks o Hin; simpl in Hin; [contradiction|].
+  induction evs as [|e t IH]; intros c Hc Hl Hb Hnd e0 id toks Hin Het; simpl in Hin; [contradiction|].
   simpl in Hb; apply andb_true_iff in Hb; destruct Hb as [Hb1 Hb2].
   destruct (step_released c e Hc Hl Hb1) as (H1 & H2 & _).
   pose proof (step_defs c e Hc Hl) as Hd.
-  simpl. destruct (step c e) as [c1 ob] eqn:Es; simpl in *.
+  rewrite build_ids_cons in Hnd.
+  cbn [run]. destruct (step true c e) as [c1 ob] eqn:Es; cbn [fst snd] in *.
   destruct Hin as [Heq | Hin].
-  - subst e. simpl in Hnd. inversion Hnd as [|x l Hnotin Hnd']; subst.
+  - subst e0. rewrite Het in Hd. rewrite (ev_toks_ids e id toks Het) in Hnd. simpl in Hnd.
+    inversion Hnd as [|x l Hnotin Hnd']; subst.
     pose proof (run_defs_untouched t c1 id H1 H2 Hb2 Hnotin) as Hu.
-    destruct (run c1 t) as [c2 os]; simpl in *.
+    destruct (run true c1 t) as [c2 os]; cbn [fst snd] in *.
     rewrite Hu. apply Hd.
-  - assert (Hnd' : NoDup (build_ids t)).
-    { destruct e; simpl in Hnd; auto. inversion Hnd; auto. }
-    pose proof (IH c1 H1 H2 Hb2 Hnd' id toks o Hin) as Hr.
-    destruct (run c1 t) as [c2 os]; simpl in *.
+  - assert (Hnd' : NoDup (build_ids t)) by (eapply NoDup_app_r; eauto).
+    pose proof (IH c1 H1 H2 Hb2 Hnd' e0 id toks Hin Het) as Hr.
+    destruct (run true c1 t) as [c2 os]; cbn [fst snd] in *.
     rewrite Hr. f_equal.
-    destruct e as [id' toks' o' | tok]; simpl in *.
+    assert (Hid : In id (build_ids t)).
+    { clear - Hin Het. induction t as [|e' t' IHt]; [contradiction|].
+      rewrite build_ids_cons. apply in_or_app. destruct Hin as [->|Hin]; [left; rewrite (ev_toks_ids _ _ _ Het); left; auto | right; auto]. }
+    destruct (ev_toks e) as [[id' toks']|] eqn:Et.
     + destruct Hd as [_ Hd]. apply Hd. intro; subst id'.
-      inversion Hnd as [|x l Hnotin _]; subst. apply Hnotin.
-      clear - Hin. induction t as [|e' t' IHt]; simpl in *; [contradiction|].
-      destruct Hin as [He | Hin]; [subst; simpl; auto|]. apply in_or_app; right; auto.
+      rewrite (ev_toks_ids e id toks' Et) in Hnd. simpl in Hnd. inversion Hnd; subst. contradiction.
     + apply Hd.
 Qed.
